@@ -124,7 +124,10 @@ def render_ddl(op, sch):
 
 def render_sdl(sch, order=None, ptr_order=None):
     """SDL document for a model state; `order` permutes the type declarations,
-    ptr_order(t, names) the members of a type body"""
+    ptr_order(t, names) the members of a type body.  A str is a hand-written
+    SDL document (schema_features.py) and is returned as it is."""
+    if isinstance(sch, str):
+        return sch
     names = [t for t in sorted(sch) if sch[t]['ex']]
     if order is not None:
         names = [names[i] for i in order]
@@ -168,7 +171,7 @@ def migrate(ctx, sdl):
     return user_schema(ctx)
 
 
-SKIP_FIELDS = {'id', 'backend_id', 'builtin', 'internal', 'span', 'sourcectx',
+SKIP_FIELDS = {'id', 'backend_id', 'backend_name', 'builtin', 'internal', 'span', 'sourcectx',
                'script', 'message', 'generated_by', 'sdl', 'parents'}
 SKIP_CLASSES = {'Migration'}
 
@@ -226,7 +229,18 @@ def proj(schema):
                 v = f'?unreadable: {type(e).__name__}'
             if v is None:
                 continue
-            rec[fn] = _render(v, full, so)
+            r = _render(v, full, so)
+            dflt = getattr(field, 'default', None)
+            if isinstance(v, (bool, int, str)) and dflt is not None and v == dflt:
+                # an explicit value equal to the field's default (owned=False
+                # after DROP OWNED) is the same schema as an unset field
+                continue
+            if r in ([], (), {}, ''):
+                # an emptied collection (e.g. the constraint index of a
+                # pointer whose last constraint was dropped) is the same
+                # schema as a collection that was never set
+                continue
+            rec[fn] = r
         out[f'{cls.__name__} {name}'] = rec
     return out
 
